@@ -211,6 +211,9 @@ def handler : Handler := fun op j =>
     match setSlice (envT tab) self (oi "start") (oi "stop") (oi "step") vals with
     | .error e => some (errReply e)
     | .ok l => some (reply tab (valJson (.blk l)) l)
+  | "iter" => do            -- indices of the blocks `iter(x)` yields for a block array of n blocks
+    let n ← fNat? j "n"
+    some (ok (jArr ((iterBlocks (List.range n)).map (fun (i : Nat) => jN i))))
   | "getslice" => do        -- indices (into a list of n blocks) that x[start:stop:step] selects
     let n ← fNat? j "n"
     let oi := fun (k : String) => match field? j k with
